@@ -77,11 +77,12 @@ Theorem C18_community_gets_remainder : forall cfg s e s',
 Proof. exact community_gets_remainder. Qed.
 Print Assumptions C18_community_gets_remainder.
 
-(* reduction_exactly_at: over consecutive successful epochs e0, e0+1, ... beginning no later than the start epoch,
+(* reduction_exactly_at: over consecutive successful epochs e0, e0+1, ... beginning no later than the start epoch
+   (or within the first period after it with the marker on the start epoch: start epoch 0, first epoch 1),
    the provision is multiplied by the reduction factor at the epochs start + k*period (k >= 1) and at no other;
    after epoch e the provision is the initial one reduced (e - start) / period times and the marker sits on the grid *)
 Theorem C18_reduction_exactly_at : forall cfg s e0 n,
-  valid_cfg cfg -> e0 <= p_start cfg -> all_ok cfg s (consec e0 (S n)) ->
+  valid_cfg cfg -> history_start_ok cfg s e0 -> all_ok cfg s (consec e0 (S n)) ->
   let e := e0 + Z.of_nat n in
   let before := run cfg s (consec e0 n) in
   let after := run cfg s (consec e0 (S n)) in
@@ -165,7 +166,7 @@ Definition C18_full : Prop :=
      call_spec cfg (run cfg s pre) c) /\
   (forall cfg s calls, valid_cfg cfg -> 0 <= s_prov s -> bal (s_bank s) AMint = 0 ->
      bal (s_bank (run cfg s calls)) AMint = 0) /\
-  (forall cfg s e0 n, valid_cfg cfg -> e0 <= p_start cfg -> all_ok cfg s (consec e0 (S n)) ->
+  (forall cfg s e0 n, valid_cfg cfg -> history_start_ok cfg s e0 -> all_ok cfg s (consec e0 (S n)) ->
      let e := e0 + Z.of_nat n in p_start cfg <= e ->
      (reduces cfg (run cfg s (consec e0 n)) e = true <-> exists k, 1 <= k /\ e = p_start cfg + k * p_period cfg)) /\
   exact_supply_growth.
@@ -177,7 +178,7 @@ Theorem C18_partial :
      call_spec cfg (run cfg s pre) c) /\
   (forall cfg s calls, valid_cfg cfg -> 0 <= s_prov s -> bal (s_bank s) AMint = 0 ->
      bal (s_bank (run cfg s calls)) AMint = 0) /\
-  (forall cfg s e0 n, valid_cfg cfg -> e0 <= p_start cfg -> all_ok cfg s (consec e0 (S n)) ->
+  (forall cfg s e0 n, valid_cfg cfg -> history_start_ok cfg s e0 -> all_ok cfg s (consec e0 (S n)) ->
      let e := e0 + Z.of_nat n in p_start cfg <= e ->
      (reduces cfg (run cfg s (consec e0 n)) e = true <-> exists k, 1 <= k /\ e = p_start cfg + k * p_period cfg)).
 Proof.
@@ -223,3 +224,13 @@ Example C18_nonvacuous_schedule :
   s_prov (run nv_cfg nv_state (consec 1 12)) = 243531202435312024718417 /\
   s_last (run nv_cfg nv_state (consec 1 12)) = 11.
 Proof. exact nv_schedule. Qed.
+
+(* the default-chain shape (start epoch 0, first epoch 1, marker 0): the history starts after the start epoch, the
+   generalised starting condition holds, reductions fall on epochs 2, 4, 6 *)
+Example C18_nonvacuous_schedule_default_chain :
+  valid_cfg nv0_cfg /\ history_start_ok nv0_cfg w_state 1 /\ ~ 1 <= p_start nv0_cfg /\
+  all_ok nv0_cfg w_state (consec 1 6) /\
+  map (fun n => reduces nv0_cfg (run nv0_cfg w_state (consec 1 n)) (1 + Z.of_nat n)) (seq 0 6)
+    = [false; true; false; true; false; true] /\
+  s_prov (run nv0_cfg w_state (consec 1 6)) = 125000462500000000000000.
+Proof. exact nv0_schedule. Qed.
